@@ -709,6 +709,7 @@ func cmdCrash(fs *flag.FlagSet, args []string) {
 				emit("# ORACLE %s %s workload seed %d (%s mix)%s: crash after %d of %d disk events (%s): the recovered file system %s; allowed: the state after k operations, %d <= k <= %d; %s", prop, key, wseed, mixd, stage, c.p, len(events), c.desc, what, kmin, kmax, firstDiff(dumps[kmin], got))
 			} else {
 				// the recovered server keeps serving
+				rs.removePending = c.p%2 == 1 // every other image: files with an interrupted truncation are removed, not resumed
 				if why := rs.postCrashProbe(); why != "" {
 					emit("# ORACLE C01 recovered-server-broken workload seed %d (%s mix): after recovery at crash point %d (%s), state after %d operations: %s", wseed, mixd, c.p, c.desc, match, why)
 				}
@@ -842,6 +843,31 @@ func (s *seqRun) postCrashProbe() string {
 	written := data[:wr.Resok.Count]
 	// whatever the crash left half-done is resumed now: the numbers of half-freed objects are
 	// reused, and every file is touched (a size change to its own size finishes a pending shrink)
+	if s.removePending {
+		// C05: a file whose truncation the crash interrupted (live, ShrinkSize above its size, nobody
+		// working on it) is REMOVED instead: once the REMOVE has returned and the shrinker is idle,
+		// the freed inode holds no block any more
+		for _, pin := range pendingShrinks(s.srv.VerifFsState()) {
+			for _, fhh := range s.dumpFiles {
+				loc, ok := s.dumpWhere[hx(fhh)]
+				if inumOf(fhh) != pin || !ok {
+					continue
+				}
+				before := inodeOnDisk(s.srv.VerifFsState(), pin)
+				okr := s.hist["remove:ok"]
+				s.opRemove("remove", loc.dir, loc.name)
+				s.waitIdle()
+				if s.dead || s.hist["remove:ok"] != okr+1 {
+					continue
+				}
+				for _, hf := range halfFreed(s.srv.VerifFsState()) {
+					if hf == pin {
+						emit("# ORACLE C05 space-not-reclaimed on a server recovered from a crash image the file %q (inode %s), whose truncation the crash interrupted, was removed (NFS3_OK) and the background shrinker is idle, but the freed inode still holds blocks (%s): they stay allocated until the inode number is handed out again", loc.name, before, inodeOnDisk(s.srv.VerifFsState(), pin))
+					}
+				}
+			}
+		}
+	}
 	for _, hf := range halfFreed(s.srv.VerifFsState()) {
 		s.pokeInodeAlloc(hf - 1)
 		s.mk("create", s.root(), fmt.Sprintf("reuse-%d", hf))
